@@ -224,16 +224,21 @@ func runSub(t *testing.T, cfg subCfg) sim.Result {
 		}
 		c.ctxs = make([]mangos.Context, cfg.NCtx)
 		c.pctxs = make([]protocol.Context, cfg.NCtx)
+		// the socket's values first: a context that wants the same values is left to inherit them (C19)
+		must(c.sock.SetOption(mangos.OptionReadQLen, cfg.QLen[0]))
+		must(c.sock.SetOption(mangos.OptionRecvDeadline, cfg.RecvExp[0]))
 		for i := 1; i < cfg.NCtx; i++ {
 			mc, err := c.sock.OpenContext()
 			must(err)
 			c.ctxs[i] = mc
 			c.pctxs[i] = rp.Ctxs[len(rp.Ctxs)-1]
-			must(mc.SetOption(mangos.OptionReadQLen, cfg.QLen[i]))
-			must(mc.SetOption(mangos.OptionRecvDeadline, cfg.RecvExp[i]))
+			if cfg.QLen[i] != cfg.QLen[0] {
+				must(mc.SetOption(mangos.OptionReadQLen, cfg.QLen[i]))
+			}
+			if cfg.RecvExp[i] != cfg.RecvExp[0] {
+				must(mc.SetOption(mangos.OptionRecvDeadline, cfg.RecvExp[i]))
+			}
 		}
-		must(c.sock.SetOption(mangos.OptionReadQLen, cfg.QLen[0]))
-		must(c.sock.SetOption(mangos.OptionRecvDeadline, cfg.RecvExp[0]))
 		l, err := c.sock.NewListener(s.Net.Addr("l1"), nil)
 		must(err)
 		must(l.Listen())
@@ -281,8 +286,13 @@ func subRandom(rng *rand.Rand) subCfg {
 	sec := time.Second
 	n := 1 + rng.Intn(3)
 	c := subCfg{NCtx: n}
+	inherit := rng.Intn(2) == 0 // the contexts take the socket's queue length as it is when they are opened
 	for i := 0; i < n; i++ {
-		c.QLen = append(c.QLen, []int{1, 2, 3, 128}[rng.Intn(4)])
+		if len(c.QLen) > 0 && inherit {
+			c.QLen = append(c.QLen, c.QLen[0])
+		} else {
+			c.QLen = append(c.QLen, []int{1, 2, 3, 128}[rng.Intn(4)])
+		}
 		var d time.Duration
 		if rng.Intn(4) == 0 {
 			d = 2 * sec
